@@ -157,6 +157,91 @@ def _running_total_form(fn):
 
 
 
+def _index_scatter(fn, rid, key, meth, file) -> Optional[List[R.Inst]]:
+    """results written straight to the position of their query:
+        R = [x] * len(..);  for i in <a permutation of the query's indices>: ... Q[i] ...; R[i] = <result>;  return np.array(R)
+    (or R is an auxiliary array and the result is `[f(q, r) for q, r in zip(Q, R)]`): whatever order the loop visits the
+    indices in, result i belongs to query i.  A cursor that only steps backwards needs the visit order to be descending."""
+    params = [a.arg for a in fn.node.args.args if a.arg != "self"]
+    if not params:
+        return None
+    Q = params[0]
+
+    def res1(e):
+        if isinstance(e, ast.Name):
+            ds = [x.value for x in walk_no_nested(fn.node) if
+                  (isinstance(x, ast.Assign) and len(x.targets) == 1 and isinstance(x.targets[0], ast.Name) and x.targets[0].id == e.id) or
+                  (isinstance(x, ast.AnnAssign) and isinstance(x.target, ast.Name) and x.target.id == e.id and x.value is not None)]
+            if len(ds) == 1:
+                return ds[0]
+        return e
+    for lp in (n for n in walk_no_nested(fn.node) if isinstance(n, ast.For) and isinstance(n.target, ast.Name)):
+        it, rev = lp.iter, False
+        for _ in range(3):
+            if isinstance(it, ast.Call) and isinstance(it.func, ast.Name) and it.func.id == "reversed" and len(it.args) == 1:
+                it, rev = it.args[0], not rev
+            elif isinstance(it, ast.Subscript) and unparse(it.slice) == "::-1":
+                it, rev = it.value, not rev
+            else:
+                it = res1(it) if isinstance(it, ast.Name) else it
+        if not (isinstance(it, ast.Call) and call_name(it) == "argsort" and not it.args and isinstance(it.func, ast.Attribute) and
+                unparse(it.func.value) == Q):
+            continue
+        ix = lp.target.id
+        stores = [n for n in ast.walk(lp) if isinstance(n, ast.Assign) and isinstance(n.targets[0], ast.Subscript) and
+                  isinstance(n.targets[0].value, ast.Name) and isinstance(n.targets[0].slice, ast.Name) and n.targets[0].slice.id == ix]
+        if len(stores) != 1:
+            continue
+        Rn = stores[0].targets[0].value.id
+        init = res1(ast.Name(id=Rn, ctx=ast.Load()))
+        sized = isinstance(init, ast.BinOp) and isinstance(init.op, ast.Mult) and "len(" in unparse(init)
+        reads = [n for n in ast.walk(lp) if isinstance(n, ast.Subscript) and unparse(n.value) == Q and isinstance(n.ctx, ast.Load)]
+        own = all(isinstance(n.slice, ast.Name) and n.slice.id == ix for n in reads) and bool(reads)
+        rets = [n for n in walk_no_nested(fn.node) if isinstance(n, ast.Return) and n.value is not None]
+        if len(rets) != 1 or not sized or not own:
+            continue
+        rv = rets[0].value
+        while isinstance(rv, ast.Call) and call_name(rv) in ("array", "asarray", "list") and rv.args:
+            rv = rv.args[0]
+        rv = res1(rv)
+        direct = isinstance(rv, ast.Name) and rv.id == Rn or unparse(rv) == unparse(init) and False
+        direct = isinstance(rets[0].value, ast.Name) and rets[0].value.id == Rn or \
+            (isinstance(rets[0].value, ast.Call) and call_name(rets[0].value) in ("array", "asarray", "list") and rets[0].value.args and
+             isinstance(rets[0].value.args[0], ast.Name) and rets[0].value.args[0].id == Rn)
+        zipped = isinstance(rv, (ast.ListComp, ast.GeneratorExp)) and len(rv.generators) == 1 and not rv.generators[0].ifs and \
+            isinstance(rv.generators[0].iter, ast.Call) and call_name(rv.generators[0].iter) == "zip" and \
+            [unparse(a) for a in rv.generators[0].iter.args][:1] == [Q] and Rn in [unparse(a) for a in rv.generators[0].iter.args]
+        out = []
+        if direct or zipped:
+            out.append(R.ok(rid, key, file, stores[0].lineno,
+                            idiom=f"{Rn}[i] is computed from {Q}[i]: each result sits at the position of its own query"
+                            + (f"; results = comprehension over zip({Q}, {Rn})" if zipped else "")))
+        else:
+            out.append(R.undec(rid, key, file, rets[0].lineno, f"per-index scatter into '{Rn}', but the returned expression is not recognised"))
+        # cursor discipline of the sweep inside this loop
+        cur = [n for n in ast.walk(lp) if isinstance(n, ast.AugAssign) and isinstance(n.target, ast.Name)]
+        decs = [c for c in cur if isinstance(c.op, ast.Sub)]
+        incs = [c for c in cur if isinstance(c.op, ast.Add) and c.target.id in {d.target.id for d in decs}]
+        if decs and not incs:
+            k2 = f"TimingMap.{meth}:sweep"
+            whiles = [w for w in ast.walk(lp) if isinstance(w, ast.While)]
+            cmp_ok = any(isinstance(w.test, ast.Compare) and len(w.test.ops) == 1 and isinstance(w.test.ops[0], ast.Gt) for w in whiles)
+            if rev and cmp_ok:
+                out.append(R.ok(rid, k2, file, lp.lineno, idiom="indices visited from the largest query down, cursor only decrements while change > query"))
+            elif not rev:
+                out.append(R.viol(rid, k2, file, lp.lineno,
+                                  "the tempo cursor only moves backwards, so the queries must be visited from last to first; "
+                                  "they are visited in ascending order", construct=f"{meth}: ascending sweep with decrementing cursor"))
+            else:
+                out.append(R.viol(rid, k2, file, lp.lineno,
+                                  "the cursor must step back while the tempo change lies strictly after the query "
+                                  "(a query exactly on a change belongs to that change)",
+                                  construct=f"{meth}: " + "; ".join(unparse(w.test) for w in whiles)))
+        return out
+    return None
+
+
+
 def _direct_bisect(fn, rid, key, meth, file) -> Optional[List[R.Inst]]:
     """`for q in QUERIES: i = bisect_*(KEYS, q) - 1; ...; acc.append(..)` and `return np.array(acc)`: query order is kept by
     construction; the segment selection must put a query that EQUALS a change position into the segment that change starts
@@ -301,7 +386,7 @@ def rule_r1(ctx) -> List[R.Inst]:
         main = [r for r in rets if isinstance(r.value, ast.Subscript)]
         if acc is None or len(main) != 1:
             # second structure: no sorting at all — one result per query, in query order, the active change found by bisection
-            direct = _direct_bisect(fn, rid, key, meth, file)
+            direct = _direct_bisect(fn, rid, key, meth, file) or _index_scatter(fn, rid, key, meth, file)
             if direct is not None:
                 insts.extend(direct)
                 continue
@@ -597,22 +682,45 @@ def rule_r4(ctx) -> List[R.Inst]:
     # TimingMap.offsets: change[i].offset + (snap - change_snap[i].snap).offset(change_snap[i]) with one index
     fo = _rfn(ctx, T.TIMINGMAP + ".offsets", subst="alias")
     ff = M.mods[fo.mod].rel
-    app = [c for c in ast.walk(fo.node) if isinstance(c, ast.Call) and call_name(c) == "append" and c.args]
-    diff = [n for n in ast.walk(fo.node) if isinstance(n, ast.Assign) and isinstance(n.value, ast.BinOp) and
-            isinstance(n.value.op, ast.Sub) and unparse(n.targets[0]) == "diff_snap"]
-    bcs = local_defs(fo.node, "bcs")
-    if len(app) == 1 and len(diff) == 1 and len(bcs) == 1 and isinstance(bcs[0], ast.Subscript):
-        ix = unparse(bcs[0].slice)
-        e = app[0].args[0]
-        good = isinstance(e, ast.BinOp) and isinstance(e.op, ast.Add) and \
-            {unparse(e.left), unparse(e.right)} == {f"self.bpm_changes_offset[{ix}].offset", "diff_snap.offset(bcs)"} and \
-            unparse(diff[0].value.left) == "snap" and unparse(diff[0].value.right) == "bcs.snap"
+    # (the expression is looked for wherever it is computed — appended, stored at an index, element of a comprehension — and read
+    # with the locals it mentions resolved: diff_snap, bcs, an alias of self.bpm_changes_offset)
+    import copy as _copy
+
+    def _res(e, depth=0):
+        class T(ast.NodeTransformer):
+            def visit_Name(self, n):
+                if not isinstance(n.ctx, ast.Load) or depth > 3:
+                    return n
+                ds = [x.value for x in ast.walk(fo.node) if isinstance(x, ast.Assign) and len(x.targets) == 1 and
+                      isinstance(x.targets[0], ast.Name) and x.targets[0].id == n.id]
+                if len(ds) == 1 and isinstance(ds[0], (ast.BinOp, ast.Subscript, ast.Attribute, ast.Call)) and not (
+                        isinstance(ds[0], ast.Call) and call_name(ds[0]) not in ("bpm_changes_snap",)):
+                    return _res(ds[0], depth + 1)
+                return n
+        return T().visit(_copy.deepcopy(e))
+    cands = [n for n in ast.walk(fo.node) if isinstance(n, ast.BinOp) and isinstance(n.op, ast.Add) and
+             any(isinstance(x, ast.Call) and call_name(x) == "offset" for x in (n.left, n.right)) and
+             any(isinstance(x, ast.Attribute) and x.attr == "offset" for x in (n.left, n.right))]
+    if len(cands) == 1:
+        e = cands[0]
+        r = _res(e)
+        att, call = (r.left, r.right) if isinstance(r.left, ast.Attribute) else (r.right, r.left)
+        good = False
+        if isinstance(att, ast.Attribute) and isinstance(att.value, ast.Subscript) and isinstance(call, ast.Call) and len(call.args) == 1 and \
+                isinstance(call.func, ast.Attribute) and isinstance(call.func.value, ast.BinOp) and isinstance(call.func.value.op, ast.Sub):
+            ix = unparse(att.value.slice)
+            times = unparse(att.value.value)
+            b = call.args[0]
+            d = call.func.value
+            good = times in ("self.bpm_changes_offset",) and isinstance(b, ast.Subscript) and unparse(b.slice) == ix and \
+                unparse(b.value) in ("self.bpm_changes_snap()",) and unparse(d.right) == unparse(b) + ".snap" and \
+                "bpm_changes" not in unparse(d.left)       # the minuend is the query (a loop variable or an element of the queries)
         insts.append(R.ok(rid, "TimingMap.offsets:formula", ff, e.lineno,
                           idiom="time of the active change + (query - its position) at its tempo, one index for both tables")
                      if good else
                      R.viol(rid, "TimingMap.offsets:formula", ff, e.lineno,
                             "a query's time is the active change's time plus the position difference at that same change's tempo",
-                            construct=unparse(e) + " ; " + unparse(diff[0])))
+                            construct=unparse(r)[:200]))
     else:
         insts.append(R.undec(rid, "TimingMap.offsets:formula", ff, fo.node.lineno, "offset formula not recognised"))
     # Snap.from_offset shape
